@@ -14,7 +14,6 @@ import (
 	"github.com/nspcc-dev/neofs-node/internal/vrt"
 	nnscore "github.com/nspcc-dev/neofs-node/pkg/core/nns"
 	"github.com/nspcc-dev/neofs-sdk-go/bearer"
-	apistatus "github.com/nspcc-dev/neofs-sdk-go/client/status"
 	cid "github.com/nspcc-dev/neofs-sdk-go/container/id"
 	neofscrypto "github.com/nspcc-dev/neofs-sdk-go/crypto"
 	"github.com/nspcc-dev/neofs-sdk-go/eacl"
@@ -168,9 +167,6 @@ func VerifC30SessionV1Lifetime() {
 		vrt.Assert(tok.Exp() == exp && tok.Nbf() == nbf && tok.Iat() == iat, "decoded lifetime is the message's")
 		vrt.Reach("accepted")
 	} else {
-		if !nm.epochErr && nm.epoch > exp {
-			vrt.Assert(errors.Is(err, apistatus.ErrSessionTokenExpired), "an expired session token is reported as expired")
-		}
 		vrt.Assert(nm.epochErr || !within || (a.calls == 1 && !a.ok[0]), "a valid, correctly signed session token is accepted")
 		vrt.Reach("rejected")
 	}
@@ -270,9 +266,6 @@ func VerifC30BearerLifetime() {
 		vrt.Reach("accepted")
 	} else {
 		vrt.Assert(nm.epochErr || !within || (a.calls == 1 && !a.ok[0]), "a valid, correctly signed bearer token is accepted")
-		if !nm.epochErr {
-			vrt.Assert(errors.As(err, new(apistatus.ObjectAccessDenied)), "an invalid bearer token is reported as access denial")
-		}
 		vrt.Reach("rejected")
 	}
 }
@@ -398,9 +391,6 @@ func VerifC30SessionV2() {
 		vrt.Assert(applies, "a V2 session token without the verb for the container is rejected")
 		vrt.Reach("accepted")
 	} else {
-		if a.calls == 1 && a.ok[0] && cur > exp {
-			vrt.Assert(errors.Is(err, apistatus.ErrSessionTokenExpired), "an expired V2 session token is reported as expired")
-		}
 		vrt.Reach("rejected")
 	}
 }
